@@ -26,7 +26,7 @@ RefInit(e) ==
    nresp |-> 0, answered |-> 0, cur |-> NoCur, final |-> FALSE, finalWhy |-> "", errResp |-> FALSE, interim |-> 0,
    done |-> FALSE, signalled |-> FALSE, tSig |-> 0, tLastIn |-> 0, tFirstByte |-> -1, tShut |-> -1, tIdle |-> 0,
    lastEnded |-> [status |-> 0, m |-> "", total |-> 0, bodiless |-> FALSE], stalled |-> FALSE, wroteAny |-> FALSE,
-   maxHeld |-> 0, tHead1 |-> -1, kaMayHaveFired |-> FALSE, anyCut |-> FALSE, doneErr |-> FALSE, tFinal |-> -1, sigTok |-> 0, t408 |-> -1, wpend |-> FALSE,
+   maxHeld |-> 0, tHead1 |-> -1, kaMayHaveFired |-> FALSE, anyCut |-> FALSE, doneErr |-> FALSE, tFinal |-> -1, sigTok |-> 0, t408 |-> -1, wpend |-> FALSE, everPend |-> FALSE,
    mem0 |-> -1, tAct |-> 0, tEof |-> -1, tAns |-> 0, closeI |-> 0, closeFed |-> -1, tCloseFed |-> -1, finalIdle |-> FALSE, unlimited |-> (e.sock.budget < 0)]
 
 NReq(rs) == Len(rs.gt)
@@ -263,10 +263,13 @@ ErrEndJustified(rs, e) ==
 OnDone(rs, e) ==
   LET s == [rs EXCEPT !.done = TRUE, !.doneErr = (e.res = "err")] IN
   E({"C06"}, ~ShutLate(rs, e.t),
-  E({"C06"}, ~(Idle(rs) /\ rs.cfg.ka_ms > 0 /\ e.res = "ok" /\ e.t - rs.tAct + LAG < rs.cfg.ka_ms),
+  \* (the keep-alive clock starts when the handler has answered, which the client sees later if it was slow to take the response)
+  E({"C06"}, ~(Idle(rs) /\ rs.cfg.ka_ms > 0 /\ e.res = "ok" /\ e.t - rs.tAct + LAG < rs.cfg.ka_ms /\ ~rs.everPend),
   E({"C04"}, e.res = "ok" \/ ErrEndJustified(rs, e),
    \* (what happens to a request that was dispatched after a closing response is part of that recorded C03 deviation)
-   LET allAnswered == rs.called <= rs.answered + (IF rs.cur.k # 0 THEN 1 ELSE 0) \/ Faulted(rs) \/ e.res = "err" \/ rs.final
+   \* (a response the peer did not take while the keep-alive / disconnect time ran out is abandoned with the connection: the
+   \*  timers double as a write time-out; that is the code's choice and the property does not forbid it)
+   LET allAnswered == rs.called <= rs.answered + (IF rs.cur.k # 0 THEN 1 ELSE 0) \/ Faulted(rs) \/ e.res = "err" \/ rs.final \/ rs.wpend
        sig == IF ChunkDrop(rs) THEN "C02/Done/unanswered-because-dropped-on-malformed-chunk" ELSE "C02/Done/dispatched-request-never-answered" IN
    E({"C02"}, allAnswered,
     \* C04 (exactly-once delivery) reads the same observation, unless the response stream could not be attributed any more
@@ -320,7 +323,9 @@ RefStep0(rs, e) ==
     [] e.ev = "End"      -> OnEnd(rs, e)
     [] e.ev = "Mem"      -> OnMem(rs, e)
     [] e.ev = "HTok"     -> [rs EXCEPT !.tAct = e.t, !.sigTok = IF rs.signalled THEN e.i ELSE @]
-    [] e.ev \in {"BTok", "Writable"} -> [rs EXCEPT !.tAct = e.t]
+    [] e.ev = "BTok"     -> [rs EXCEPT !.tAct = e.t]
+    [] e.ev = "Writable" -> [rs EXCEPT !.tAct = e.t, !.wpend = FALSE]
+    [] e.ev = "WritePend" -> [rs EXCEPT !.wpend = TRUE, !.everPend = TRUE]      \* the peer is not taking what the server has to write
     [] e.ev = "Tick"     -> LET r1 == OnTime(rs, e.t) IN IF r1.tag = "rej" THEN r1 ELSE [rs EXCEPT !.kaMayHaveFired = @ \/ (rs.cfg.ka_ms > 0 /\ e.t - rs.tLastIn + LAG >= rs.cfg.ka_ms)
                                                             \/ (rs.cfg.head_ms > 0 /\ rs.called = 0 /\ e.t + LAG >= rs.cfg.head_ms)]
     [] OTHER -> rs          \* Writable, HTok, BTok, WritePend, Shutdown, Quiesce, Mem: bookkeeping
